@@ -445,6 +445,9 @@ func report(p *Prop, env *Env, m *Merged, wall time.Duration) int {
 		_ = os.WriteFile(path, b, 0o644)
 		fmt.Printf("VIOLATION property=%s replay=%s\n", p.ID, path)
 		msg := v.Msg
+		if ls := strings.Split(msg, "\n"); len(ls) > 10 {
+			msg = strings.Join(ls[:10], "\n") + "\n..."
+		}
 		if len(msg) > 1500 {
 			msg = msg[:1500] + "..."
 		}
